@@ -27,7 +27,7 @@ spec fn row_reads(data: Seq<DataEntry>, x: Seq<char>) -> bool {
 }
 
 /// the variables in scope after statement s, given those in scope before it
-spec fn scope_after(s: Stmt, sc: Set<Seq<char>>) -> Set<Seq<char>>
+spec fn scope_after(s: Stmt, sc: ISet<Seq<char>>) -> ISet<Seq<char>>
     decreases s, 0int
 {
     match s {
@@ -37,13 +37,13 @@ spec fn scope_after(s: Stmt, sc: Set<Seq<char>>) -> Set<Seq<char>>
     }
 }
 /// ... after the first n statements of a block
-spec fn scope_after_block(ss: Seq<Stmt>, sc: Set<Seq<char>>, n: int) -> Set<Seq<char>>
+spec fn scope_after_block(ss: Seq<Stmt>, sc: ISet<Seq<char>>, n: int) -> ISet<Seq<char>>
     decreases ss, 1int, n
 {
     if n <= 0 || n > ss.len() { sc } else { scope_after(ss[n - 1], scope_after_block(ss, sc, n - 1)) }
 }
 /// x is read by statement s at a point where no variable x is in scope
-spec fn stmt_free(s: Stmt, sc: Set<Seq<char>>, x: Seq<char>) -> bool
+spec fn stmt_free(s: Stmt, sc: ISet<Seq<char>>, x: Seq<char>) -> bool
     decreases s, 0int
 {
     match s {
@@ -54,8 +54,211 @@ spec fn stmt_free(s: Stmt, sc: Set<Seq<char>>, x: Seq<char>) -> bool
         Stmt::While { condition, inner } => (expr_reads(condition, x) && !sc.contains(x)) || block_free(inner@, sc, x),
     }
 }
-spec fn block_free(ss: Seq<Stmt>, sc: Set<Seq<char>>, x: Seq<char>) -> bool
+spec fn block_free(ss: Seq<Stmt>, sc: ISet<Seq<char>>, x: Seq<char>) -> bool
     decreases ss, 2int
 {
     exists|i: int| #[trigger] wi(i) && 0 <= i < ss.len() && stmt_free(ss[i], scope_after_block(ss, sc, i), x)
+}
+
+// ---- the parser's scope set and its table of output reads ----
+
+/// the names the parser currently holds as variables
+spec fn scope_of(vars: FramedSet<&str>) -> ISet<Seq<char>> {
+    ISet::new(|x: Seq<char>| exists|i: int| 0 <= i < vars.map.values@.len() && (#[trigger] vars.map.values@[i]).0@ == x)
+}
+// [A-std] <&str as Borrow<str>>::borrow preserves the contents
+#[verifier::external_body]
+proof fn axiom_borrow_str_str()
+    ensures forall|k: &str| (#[trigger] borrow_spec::<&str, str>(&k))@ == k@,
+{
+}
+proof fn lemma_lookup_by_iff<K, V>(s: Seq<(K, V)>, p: spec_fn(K) -> bool)
+    ensures lookup_by(s, p) is Some <==> exists|i: int| 0 <= i < s.len() && p((#[trigger] s[i]).0)
+    decreases s.len()
+{
+    if s.len() > 0 {
+        lemma_lookup_by_iff(s.drop_last(), p);
+        if p(s.last().0) {
+            assert(p(s[s.len() - 1].0));
+        } else if lookup_by(s.drop_last(), p) is Some {
+            let i = choose|i: int| 0 <= i < s.drop_last().len() && p((#[trigger] s.drop_last()[i]).0);
+            assert(s[i] == s.drop_last()[i]);
+        } else {
+            assert forall|i: int| 0 <= i < s.len() implies !p((#[trigger] s[i]).0) by {
+                if i < s.len() - 1 { assert(s[i] == s.drop_last()[i]); }
+            }
+        }
+    }
+}
+/// FramedSet::contains decides membership in scope_of
+proof fn lemma_scope_contains(vars: FramedSet<&str>, name: &str)
+    ensures (lookup_by(vars.map.values@, key_matches::<&str, str>(name)) is Some) <==> scope_of(vars).contains(name@)
+{
+    axiom_string_model();
+    axiom_borrow_str_str();
+    let s = vars.map.values@;
+    let p = key_matches::<&str, str>(name);
+    lemma_lookup_by_iff(s, p);
+    if lookup_by(s, p) is Some {
+        let i = choose|i: int| 0 <= i < s.len() && p((#[trigger] s[i]).0);
+        assert(s[i].0@ == name@);
+    }
+    if scope_of(vars).contains(name@) {
+        let i = choose|i: int| 0 <= i < s.len() && (#[trigger] s[i]).0@ == name@;
+        assert(p(s[i].0));
+    }
+}
+
+/// the table m1 holds what m0 held plus exactly the names satisfying p
+#[verifier::opaque]
+spec fn grows_by<V>(m0: Map<&str, V>, m1: Map<&str, V>, p: spec_fn(Seq<char>) -> bool) -> bool {
+    forall|x: Seq<char>| #[trigger] has_name(m1, x) <==> (has_name(m0, x) || p(x))
+}
+proof fn lemma_grows_trans<V>(m0: Map<&str, V>, m1: Map<&str, V>, m2: Map<&str, V>, p: spec_fn(Seq<char>) -> bool, q: spec_fn(Seq<char>) -> bool, r: spec_fn(Seq<char>) -> bool)
+    requires grows_by(m0, m1, p), grows_by(m1, m2, q), forall|x: Seq<char>| #[trigger] r(x) <==> (p(x) || q(x))
+    ensures grows_by(m0, m2, r)
+{
+    reveal(grows_by);
+    assert forall|x: Seq<char>| #[trigger] has_name(m2, x) <==> (has_name(m0, x) || r(x)) by {
+        assert(has_name(m1, x) <==> (has_name(m0, x) || p(x)));
+    }
+}
+proof fn lemma_grows_same<V>(m0: Map<&str, V>, m1: Map<&str, V>, p: spec_fn(Seq<char>) -> bool, q: spec_fn(Seq<char>) -> bool)
+    requires grows_by(m0, m1, p), forall|x: Seq<char>| #[trigger] q(x) <==> p(x)
+    ensures grows_by(m0, m1, q)
+{
+    reveal(grows_by);
+    assert forall|x: Seq<char>| #[trigger] has_name(m1, x) <==> (has_name(m0, x) || q(x)) by { assert(q(x) <==> p(x)); }
+}
+/// the predicate "x is read by e outside the scope sc"
+spec fn free_in_expr(e: Expr, sc: ISet<Seq<char>>) -> spec_fn(Seq<char>) -> bool { |x: Seq<char>| expr_reads(e, x) && !sc.contains(x) }
+
+/// x occurs in one of the operands of the flat reading
+spec fn flat_reads(f: Seq<Tok>, x: Seq<char>) -> bool {
+    exists|i: int| #[trigger] wi(i) && 0 <= i < f.len() && (f[i] matches Tok::A(e) && expr_reads(e, x))
+}
+spec fn flat_free(f: Seq<Tok>, sc: ISet<Seq<char>>) -> spec_fn(Seq<char>) -> bool { |x: Seq<char>| flat_reads(f, x) && !sc.contains(x) }
+spec fn args_reads(args: Seq<Expr>, x: Seq<char>) -> bool {
+    exists|i: int| #[trigger] wi(i) && 0 <= i < args.len() && expr_reads(args[i], x)
+}
+spec fn args_free(args: Seq<Expr>, sc: ISet<Seq<char>>) -> spec_fn(Seq<char>) -> bool { |x: Seq<char>| args_reads(args, x) && !sc.contains(x) }
+spec fn none_free() -> spec_fn(Seq<char>) -> bool { |x: Seq<char>| false }
+
+proof fn lemma_flat_reads_concat(f: Seq<Tok>, g: Seq<Tok>, x: Seq<char>)
+    ensures flat_reads(f + g, x) <==> (flat_reads(f, x) || flat_reads(g, x))
+{
+    let h = f + g;
+    if flat_reads(f, x) {
+        let i = choose|i: int| #[trigger] wi(i) && 0 <= i < f.len() && (f[i] matches Tok::A(e) && expr_reads(e, x));
+        assert(wi(i) && h[i] == f[i]);
+    }
+    if flat_reads(g, x) {
+        let i = choose|i: int| #[trigger] wi(i) && 0 <= i < g.len() && (g[i] matches Tok::A(e) && expr_reads(e, x));
+        assert(wi(f.len() + i) && h[f.len() + i] == g[i]);
+    }
+    if flat_reads(h, x) {
+        let i = choose|i: int| #[trigger] wi(i) && 0 <= i < h.len() && (h[i] matches Tok::A(e) && expr_reads(e, x));
+        if i < f.len() { assert(wi(i) && h[i] == f[i]); } else { assert(wi(i - f.len()) && h[i] == g[i - f.len()]); }
+    }
+}
+proof fn lemma_flat_reads_atom(e: Expr, x: Seq<char>)
+    ensures flat_reads(seq![Tok::A(e)], x) <==> expr_reads(e, x)
+{
+    let f = seq![Tok::A(e)];
+    if expr_reads(e, x) { assert(wi(0) && f[0] == Tok::A(e)); }
+    if flat_reads(f, x) {
+        let i = choose|i: int| #[trigger] wi(i) && 0 <= i < f.len() && (f[i] matches Tok::A(e2) && expr_reads(e2, x));
+        assert(f[i] == Tok::A(e));
+    }
+}
+proof fn lemma_flat_reads_op(op: BinOp, x: Seq<char>)
+    ensures !flat_reads(seq![Tok::O(op)], x)
+{
+    let f = seq![Tok::O(op)];
+    if flat_reads(f, x) {
+        let i = choose|i: int| #[trigger] wi(i) && 0 <= i < f.len() && (f[i] matches Tok::A(e2) && expr_reads(e2, x));
+        assert(f[i] == Tok::O(op));
+    }
+}
+/// the identifiers of the tree's expression are those of its operands
+proof fn lemma_tree_reads(t: BinOpTree, x: Seq<char>)
+    requires t.wf()
+    ensures expr_reads(t.to_expr(), x) <==> flat_reads(t.flat(), x)
+    decreases t
+{
+    match t {
+        BinOpTree::Atom(e) => { lemma_flat_reads_atom(e, x); }
+        BinOpTree::BinOp { op, left, right } => {
+            lemma_tree_reads(*left, x); lemma_tree_reads(*right, x);
+            lemma_flat_reads_concat(left.flat() + seq![Tok::O(op)], right.flat(), x);
+            lemma_flat_reads_concat(left.flat(), seq![Tok::O(op)], x);
+            lemma_flat_reads_op(op, x);
+        }
+        BinOpTree::Dummy => {}
+    }
+}
+proof fn lemma_flat_free_push(f: Seq<Tok>, f2: Seq<Tok>, op: BinOp, e: Expr, sc: ISet<Seq<char>>)
+    requires f2 == f + seq![Tok::O(op), Tok::A(e)]
+    ensures forall|x: Seq<char>| #[trigger] flat_free(f2, sc)(x) <==> (flat_free(f, sc)(x) || free_in_expr(e, sc)(x))
+{
+    assert forall|x: Seq<char>| #[trigger] flat_free(f2, sc)(x) <==> (flat_free(f, sc)(x) || free_in_expr(e, sc)(x)) by {
+        assert(seq![Tok::O(op), Tok::A(e)] =~= seq![Tok::O(op)] + seq![Tok::A(e)]);
+        lemma_flat_reads_concat(f, seq![Tok::O(op), Tok::A(e)], x);
+        lemma_flat_reads_concat(seq![Tok::O(op)], seq![Tok::A(e)], x);
+        lemma_flat_reads_op(op, x);
+        lemma_flat_reads_atom(e, x);
+    }
+}
+proof fn lemma_flat_free_first(f1: Seq<Tok>, e: Expr, sc: ISet<Seq<char>>)
+    requires f1 == seq![Tok::A(e)]
+    ensures forall|x: Seq<char>| #[trigger] flat_free(f1, sc)(x) <==> free_in_expr(e, sc)(x)
+{
+    assert forall|x: Seq<char>| #[trigger] flat_free(f1, sc)(x) <==> free_in_expr(e, sc)(x) by { lemma_flat_reads_atom(e, x); }
+}
+proof fn lemma_tree_free(t: BinOpTree, sc: ISet<Seq<char>>)
+    requires t.wf()
+    ensures forall|x: Seq<char>| #[trigger] free_in_expr(t.to_expr(), sc)(x) <==> flat_free(t.flat(), sc)(x)
+{
+    assert forall|x: Seq<char>| #[trigger] free_in_expr(t.to_expr(), sc)(x) <==> flat_free(t.flat(), sc)(x) by { lemma_tree_reads(t, x); }
+}
+proof fn lemma_args_free_push(args: Seq<Expr>, e: Expr, sc: ISet<Seq<char>>)
+    ensures forall|x: Seq<char>| #[trigger] args_free(args.push(e), sc)(x) <==> (args_free(args, sc)(x) || free_in_expr(e, sc)(x))
+{
+    let a2 = args.push(e);
+    assert forall|x: Seq<char>| #[trigger] args_free(a2, sc)(x) <==> (args_free(args, sc)(x) || free_in_expr(e, sc)(x)) by {
+        if args_reads(args, x) {
+            let i = choose|i: int| #[trigger] wi(i) && 0 <= i < args.len() && expr_reads(args[i], x);
+            assert(wi(i) && a2[i] == args[i]);
+        }
+        if expr_reads(e, x) { assert(wi(args.len() as int) && a2[args.len() as int] == e); }
+        if args_reads(a2, x) {
+            let i = choose|i: int| #[trigger] wi(i) && 0 <= i < a2.len() && expr_reads(a2[i], x);
+            if i < args.len() { assert(wi(i) && a2[i] == args[i]); } else { assert(a2[i] == e); }
+        }
+    }
+}
+proof fn lemma_grows_refl<V>(m: Map<&str, V>)
+    ensures grows_by(m, m, none_free())
+{
+    reveal(grows_by);
+}
+/// reading the identifier `name`: recorded unless a variable of that name is in scope
+proof fn lemma_grows_var<V>(m0: Map<&str, V>, m1: Map<&str, V>, name: &str, nm: String, sc: ISet<Seq<char>>, v: V)
+    requires nm@ == name@, sc.contains(name@) ==> m1 == m0,
+        !sc.contains(name@) ==> m1 =~= (if m0.contains_key(name) { m0 } else { m0.insert(name, v) }),
+    ensures grows_by(m0, m1, free_in_expr(Expr::Variable(nm), sc))
+{
+    reveal(grows_by);
+    axiom_str_key_model();
+    assert forall|x: Seq<char>| #[trigger] has_name(m1, x) <==> (has_name(m0, x) || free_in_expr(Expr::Variable(nm), sc)(x)) by {
+        assert(str_of(name@) == name);
+        assert(str_of(x)@ == x);
+    }
+}
+/// what a table that grew by p holds, it held before or p holds
+proof fn lemma_grows_elim<V>(m0: Map<&str, V>, m1: Map<&str, V>, p: spec_fn(Seq<char>) -> bool, x: Seq<char>)
+    requires grows_by(m0, m1, p)
+    ensures has_name(m1, x) <==> (has_name(m0, x) || p(x))
+{
+    reveal(grows_by);
 }
